@@ -72,7 +72,10 @@ class DerivationOracle(history.Oracle):
             except rm.NoMRO:
                 raise Violation("C03/accepted-no-linearisation/" + op["op"], {"space": s.path()})
             live = mach.world.space(s.path())
-            got = [objpath(b) for b in live.bases]
+            try:
+                got = [objpath(b) for b in live.bases]
+            except Exception as e:
+                raise Violation("C03/bases-cannot-be-read/%s/%s" % (type(e).__name__, op["op"]), {"space": s.path(), "error": str(e)[:200], "after": strip(op)})
             want = [x.path() for x in order[1:]]
             if got != want:
                 raise Violation("C03/bases-not-c3/" + op["op"], {"space": s.path(), "modelx": got, "c3": want, "after": strip(op)})
